@@ -86,6 +86,7 @@ pub fn plan(prop: &str, tier: &str) -> Option<Plan> {
             b.add("rc/transfer", all, &[&[("third", 0)]], bq);
             b.add("rc/transfer", if quick { few } else { all }, &[&[("third", 1)]], if quick { 2 } else { 3 });
             b.add("rc/dag-shared-child", all, &[&[("age", 4)], &[("age", 0)]], bq);
+            b.add("rc/weak-holder", all, &[], if quick { 2 } else { 4 });
             b.add("rc/upgrade-vs-cascade-child", all, &[&[("age", 4), ("pre", 2)], &[("age", 4), ("pre", 3)]], bq);
             b.add("rc/bulk-shares", all, &[&[("kind", 0)], &[("kind", 1)]], if quick { 2 } else { 4 });
             if !quick {
@@ -123,6 +124,8 @@ pub fn plan(prop: &str, tier: &str) -> Option<Plan> {
                 b.add_sliced("rc/stalled-dropper", few, &[&[("k", 3)]], 2, 4);
             }
             b.add("rc/failed-cas-current", all, &[], bq);
+            b.add_sliced("rc/reader-flushes", if quick { &[0i64][..] } else { all }, &[&[("mode", 0)]], 3, 16);
+            b.add_sliced("rc/reader-flushes", if quick { &[0i64][..] } else { few }, &[&[("mode", 1)]], if quick { 2 } else { 3 }, 16);
             b.add("rc/snapshot-then-drop", all, &[&[("age", 4), ("pre", 2)], &[("age", 0), ("pre", 2)]], bq);
             b.add("rc/ws-upgrade-vs-attempt", all, &[&[("pre", 2)], &[("pre", 3)]], bq);
             b.add("rc/ws-upgrade-vs-cascade-child", all, &[&[("age", 4), ("pre", 2)]], bq);
@@ -153,7 +156,7 @@ pub fn plan(prop: &str, tier: &str) -> Option<Plan> {
         "C03" => {
             let bq = if quick { 3 } else { 5 };
             b.add("rc/weak-holder", all, &[], if quick { 2 } else { 4 });
-            b.add("rc/weak-through-zero", all, &[&[("destructed", 1)], &[("destructed", 0)], &[("destructed", 2), ("pre", 2)], &[("destructed", 2), ("pre", 3)]], bq);
+            b.add("rc/weak-through-zero", all, &[&[("destructed", 1)], &[("destructed", 0)], &[("destructed", 2), ("pre", 2)], &[("destructed", 2), ("pre", 3)], &[("destructed", 1), ("dropin", 1)]], bq);
             b.add("rc/last-weak-vs-destruct", all, &[&[("pre", 0)], &[("pre", 2)], &[("pre", 3)]], bq);
             b.add("rc/weak-many-shares", all, &[], if quick { 2 } else { 4 });
             b.goal("rc/weak-holder", "upgrade-none");
@@ -211,6 +214,7 @@ pub fn plan(prop: &str, tier: &str) -> Option<Plan> {
             b.add("rc/concurrent-release", all, &[&[("shape", 0)], &[("shape", 1)], &[("shape", 2)]], bq);
             b.add("rc/dag-shared-child", all, &[&[("age", 4)], &[("age", 0)]], bq);
             b.add("rc/last-weak-vs-destruct", all, &[&[("pre", 0)], &[("pre", 2)]], bq);
+            b.add("rc/weak-through-zero", all, &[&[("destructed", 1), ("dropin", 1)], &[("destructed", 1), ("dropin", 0)], &[("destructed", 2), ("dropin", 1)]], bq.max(3));
             b.add("rc/weak-many-shares", all, &[], bq);
             b.add("rc/bulk-shares", all, &[&[("kind", 0)], &[("kind", 1)]], bq);
             b.goal("seq/graphs", "cascade-child-destructed");
@@ -392,6 +396,8 @@ pub fn plan(prop: &str, tier: &str) -> Option<Plan> {
         }
         _ => return None,
     }
+    // big (sliced) units first, so that the long ones do not start last
+    b.units.sort_by_key(|u| if u.slice.1 > 1 { 0 } else { 1 });
     if let Ok(only) = std::env::var("VERIF_ONLY") {
         // development aid: restrict a check to the scenarios with this name prefix
         b.units.retain(|u| u.scenario.starts_with(&only));
